@@ -112,19 +112,31 @@ def g_seq(rng, kind, depth):
     return (kind, els)
 
 
+def keynorm(k):
+    """Key up to eq: the two zeros of Float are one key."""
+    if k[0] == 'F' and k[1] & ~(1 << 63) == 0:
+        return ('F', 0)
+    return k
+
+
 def key_sort(kv):
+    """Iteration order of a Tree = cmp order of its keys."""
     k = kv[0]
+    if k[0] == 'F':
+        return struct.unpack('<d', struct.pack('<Q', k[1]))[0]
+    if k[0] in 'RB':
+        return k[1].to_bytes(8, 'little')          # default cmp = memcmp over the struct
     return k[1]
 
 
 def g_map(rng, kind, depth):
     n = rng.choice([0, 1, 2, 2, 3, 4, 5, 6, 9, 14])
-    kty = rng.choice(['I', 'I', 'I', 'S'])
+    kty = rng.choice(['I', 'I', 'I', 'I', 'S', 'S', 'F', 'F', 'R', 'B', 'P%d' % rng.choice([1, 4, 8, 12])])
     vty = g_elem_type(rng, depth)
     keys = {}
     for _ in range(n):
         k = g_scalar(rng, kty)
-        keys[k[1]] = k
+        keys[keynorm(k)] = k
     kvs = [(k, g_of_type(rng, vty, depth)) for k in keys.values()]
     if kind == 'E':
         kvs.sort(key=key_sort)                     # a Tree term lists its bindings in key order
@@ -157,7 +169,7 @@ def alt(rng, v):
         nk = rng.choice('ALU') if homogeneous(els) else k
         return (nk, els)
     if k in 'HE':
-        kvs = [(kk, alt(rng, vv)) for kk, vv in v[1]]
+        kvs = [(alt(rng, kk), alt(rng, vv)) for kk, vv in v[1]]     # a zero key may change its sign
         if any(vv[0] in 'ALU' for _, vv in kvs):
             ek = rng.choice('AL')                  # the values of a map have one common type
             kvs = [(kk, (ek, vv[1])) for kk, vv in kvs]
@@ -202,7 +214,7 @@ def near(rng, v):
         i = rng.randrange(len(kvs))
         if r < .8: kvs[i] = (kvs[i][0], near(rng, kvs[i][1])); return (k, kvs)
         nk = near(rng, kvs[i][0])
-        if any(x[0][1] == nk[1] for x in kvs): return (k, kvs[:i] + kvs[i + 1:])
+        if any(keynorm(x[0]) == keynorm(nk) for x in kvs): return (k, kvs[:i] + kvs[i + 1:])
         kvs[i] = (nk, kvs[i][1])
         if k == 'E': kvs.sort(key=key_sort)
         return (k, kvs)
